@@ -7,6 +7,14 @@ class Boom(Exception):
         self.eid = eid
 
 
+class BoomA(AttributeError):
+    """an AttributeError raised by the *body* of __conform__ / a hook / __adapt__: must propagate like any other"""
+
+    def __init__(self, eid):
+        AttributeError.__init__(self, eid)
+        self.eid = eid
+
+
 class Val:
     def __init__(self, k):
         self.k = k
@@ -30,6 +38,9 @@ def run(lines, out, args):
     class IX(Interface):
         pass
 
+    class IX2(Interface):
+        pass
+
     for line in lines:
         f = line.split()
         if f[0] != "call":
@@ -39,9 +50,11 @@ def run(lines, out, args):
         log = []
         raised = {}
 
-        def boom(e):
-            raised[e] = Boom(e)
+        def boom(e, attr=False):
+            raised[e] = (BoomA if attr else Boom)(e)
             return raised[e]
+
+        depth = [0]
 
         # the object
         if cf == "a":
@@ -63,7 +76,7 @@ def run(lines, out, args):
                     return None
                 if cf.startswith("v"):
                     return val(int(cf[1:]))
-                raise boom(int(cf[1:]))
+                raise boom(int(cf[1:]), cf[0] == "Q")
             Ob = type("Ob", (), {"__conform__": conform})
         ob = Ob()
         # the interface (custom __adapt__ through interfacemethod, or the plain one)
@@ -81,7 +94,7 @@ def run(lines, out, args):
                             return None
                         if cu.startswith("v"):
                             return val(int(cu[1:]))
-                        raise boom(int(cu[1:]))
+                        raise boom(int(cu[1:]), cu[0] == "Q")
                 return IC
             I = mk()
         # provided-check is observed through a providedBy that logs
@@ -107,14 +120,24 @@ def run(lines, out, args):
                 continue
 
             def hook(iface, o, k=k, t=t):
+                if depth[0]:
+                    return None            # inside a nested adaptation started by a hook: stay silent
                 log.append("h%d" % k)
                 if iface is not I or o is not ob:
                     log.append("WRONG-ARG")
+                if t == "N":
+                    # returns None, after adapting another object to another interface (which runs the hook loop again)
+                    depth[0] += 1
+                    try:
+                        IX2(Val(-1), None)
+                    finally:
+                        depth[0] -= 1
+                    return None
                 if t == "n":
                     return None
                 if t.startswith("v"):
                     return val(int(t[1:]))
-                raise boom(int(t[1:]))
+                raise boom(int(t[1:]), t[0] == "Q")
             hl.append(hook)
         hooks_list[:] = hl
         # observe the provided check: wrap providedBy on the interface instance is not possible in C; log it by result instead
@@ -128,7 +151,7 @@ def run(lines, out, args):
                 got = "val 0"
             else:
                 got = "other %r" % (r,)
-        except Boom as e:
+        except (Boom, BoomA) as e:
             got = "exc %d" % e.eid if raised.get(e.eid) is e else "exc-copy %d" % e.eid
         except TypeError as e:
             if e.args == ("Could not adapt", ob, I):
